@@ -94,7 +94,10 @@ json jstr(const std::string& s)
 }
 bytes blob(const json& a)
 {
+    // allocated to the exact size: a decoder that reads one byte beyond its input must land in the allocator's red zone, not in
+    // spare capacity a growing vector happens to have (seeded change C05h: a one-byte over-read of the uncompressed loops blob)
     bytes b;
+    b.reserve(a.size());
     for (auto& x : a)
         b.push_back((std::byte)x.get<int>());
     return b;
